@@ -253,6 +253,9 @@ func c07Monitor(c *c07Case, o c07Out) (bool, string, string) {
 			}
 		}
 		switch {
+		case (c.Formatter == "atlas" || c.Formatter == "atlas-checkpoint") && (strings.Contains(c.Delimiter, `\n`) || strings.Contains(c.Delimiter, `\t`) || strings.Contains(c.Delimiter, `\r`)) &&
+			(sig == "statement-text-differs" || sig == "statement-count-differs"):
+			return "delimiter-with-literal-escape-sequence"
 		case (c.Formatter == "goose" || c.Formatter == "dbmate" || c.Formatter == "liquibase") && crlf && sig == "statement-text-differs":
 			return "line-reader-normalises-cr"
 		case c.Formatter == "liquibase" && multilineReverse:
@@ -546,7 +549,8 @@ func runC07(e *Env) error {
 			{"ALTER TABLE t COMMENT 'x\ny'", "SELECT 1"},
 		} {
 			for _, f := range []string{"atlas", "golang-migrate", "goose", "flyway", "dbmate"} {
-				for _, dl := range []string{"", "\n\n\n", "//"} {
+				// the last three hold the two characters backslash + n / t / r, which the header's escaping cannot tell from the escaped control character
+				for _, dl := range []string{"", "\n\n\n", "//", "\\n", "a\\tb", "$$\\r"} {
 					if f != "atlas" && (dl != "" || strings.Contains(cmds[0], "BEGIN")) {
 						continue // BEGIN blocks are not produced by the community planners; sqltool dirs use the generic scanner
 					}
@@ -563,7 +567,7 @@ func runC07(e *Env) error {
 				}
 			}
 		}
-		e.Res.Rule = fmt.Sprintf("%d random schemas (1-3 tables; columns, defaults, enums, comments, checks, indexes, foreign keys; identifiers/literals adversarial with probability 0/30/60%%: quotes of the other kinds, semicolons, comment markers, newlines, backslashes, parentheses, dollar quotes, keywords, non-ASCII; the dialect's own quote character / trailing backslash in 1/12 of the cases) planned by the real MySQL/PostgreSQL/SQLite planners (indent '' or '  ', with/without empty qualifier) x formatter {atlas (default or one of 11 custom delimiters, four of them with a backslash), golang-migrate, goose, flyway, liquibase, dbmate} + hand-made plans; non-trivial = plan with >= 2 statements; distinct by the whole case", n)
+		e.Res.Rule = fmt.Sprintf("%d random schemas (1-3 tables; columns, defaults, enums, comments, checks, indexes, foreign keys; identifiers/literals adversarial with probability 0/30/60%%: quotes of the other kinds, semicolons, comment markers, newlines, backslashes, parentheses, dollar quotes, keywords, non-ASCII; the dialect's own quote character / trailing backslash in 1/12 of the cases) planned by the real MySQL/PostgreSQL/SQLite planners (indent '' or '  ', with/without empty qualifier) x formatter {atlas (default or one of 11 custom delimiters, four of them with a backslash; the hand-made plans also with the three delimiters that hold a literal backslash-n / -t / -r), golang-migrate, goose, flyway, liquibase, dbmate} + hand-made plans; non-trivial = plan with >= 2 statements; distinct by the whole case", n)
 	}
 	if e.Replay == "" {
 		c07Import(e, work)
